@@ -4,5 +4,6 @@ CONSTANTS
   RN = {"c", "b_c"}
   XN = {}
   Missing = "zz"
+  FX = {}
 INVARIANTS InvCheckExact InvCheckCount InvCheckAllowed
 CHECK_DEADLOCK FALSE
